@@ -108,7 +108,9 @@ func sinkCall(c ssa.CallInstruction) string {
 
 func checkC13(p *load.Program, r *kit.Report) {
 	importRules(p, r, "C03", "accept() follows VerifyHeader() == nil: VerifyHeader must return nil only for the required split header", 1,
-		func(o *kit.Obligation) bool { return strings.HasPrefix(o.Construct, "VerifyHeader") }, "GUARD-DOM")
+		func(o *kit.Obligation) bool {
+			return strings.HasPrefix(o.Construct, "VerifyHeader") || strings.HasPrefix(o.Construct, "handleHeadersVerify/accept")
+		}, "GUARD-DOM")
 	importRules(p, r, "C14", "a read-ahead buffer on the connection keeps dispatching what an unverified, already refused peer sent", 1, nil, "READ-AHEAD")
 	r.NotDecided = "message sequences as such (the rule covers all of them at once by covering the handler table and every call path from it), timing; what flows into NodeManager.SetHeaderHandler from outside this module."
 	r.Rule("HANDLER-TABLE", "NewBitcoinNode installs handlers only for version, verack, headers, protoconf, ping, reject, extmsg; every other install happens in accept() (which sets ready/verified), in RequestBlock (reached only through nextNode's readiness test) or in exported setters nothing in the program calls", 8)
